@@ -47,8 +47,43 @@ func fnName(f *ssa.Function) string {
 }
 
 type termer struct {
-	depth int
-	phis  map[*ssa.Phi]bool
+	depth    int
+	phis     map[*ssa.Phi]bool
+	noSuffix bool
+}
+
+// Distinct phis of one function can have the same structural term (every `for i := range x`
+// lowers to i = φ{-1 | i+1}). To keep term equality meaningful, phis whose structural term
+// collides with an earlier phi of the same function get a prime suffix (φ′, φ″, ...), in block
+// order. Phis with a unique term are printed without a suffix.
+var phiSuffixCache = map[*ssa.Function]map[*ssa.Phi]string{}
+
+func phiSuffix(p *ssa.Phi) string {
+	fn := p.Parent()
+	m, ok := phiSuffixCache[fn]
+	if !ok {
+		m = map[*ssa.Phi]string{}
+		phiSuffixCache[fn] = m
+		// save and clear aliases so the structural base is alias-independent
+		saved := termAlias
+		termAlias = map[ssa.Value]string{}
+		count := map[string]int{}
+		for _, b := range fn.Blocks {
+			for _, in := range b.Instrs {
+				ph, isPhi := in.(*ssa.Phi)
+				if !isPhi {
+					continue
+				}
+				tt := &termer{phis: map[*ssa.Phi]bool{}, noSuffix: true}
+				base := tt.val(ph)
+				n := count[base]
+				count[base]++
+				m[ph] = strings.Repeat("′", n)
+			}
+		}
+		termAlias = saved
+	}
+	return m[p]
 }
 
 // Term returns the canonical term of a value.
@@ -251,7 +286,11 @@ func (t *termer) val(v ssa.Value) string {
 				es = append(es, s)
 			}
 		}
-		return "φ{" + strings.Join(es, " | ") + "}"
+		suffix := ""
+		if !t.noSuffix {
+			suffix = phiSuffix(x)
+		}
+		return "φ" + suffix + "{" + strings.Join(es, " | ") + "}"
 	case *ssa.TypeAssert:
 		return t.val(x.X) + ".(" + typeStr(x.AssertedType) + ")"
 	case *ssa.Range:
